@@ -172,7 +172,8 @@ func C09guards(p *load.Program, run *report.Run) {
 				if ok && cond.Op == token.NEQ && strings.HasSuffix(types.ExprString(cond.X), ".Level") && strings.HasSuffix(types.ExprString(cond.Y), ".Level") && len(effectiveQ(pkg.TypesInfo, ifs.Body.List)) == 1 {
 					if r, ok := effectiveQ(pkg.TypesInfo, ifs.Body.List)[0].(*ast.ReturnStmt); ok && len(r.Results) == 1 {
 						if lt, ok := r.Results[0].(*ast.BinaryExpr); ok && lt.Op == token.LSS &&
-							types.ExprString(lt.X) == types.ExprString(cond.X) && types.ExprString(lt.Y) == types.ExprString(cond.Y) {
+							((types.ExprString(lt.X) == types.ExprString(cond.X) && types.ExprString(lt.Y) == types.ExprString(cond.Y)) ||
+								(types.ExprString(lt.X) == types.ExprString(cond.Y) && types.ExprString(lt.Y) == types.ExprString(cond.X))) {
 							okSort = true
 						}
 					}
